@@ -7,7 +7,7 @@ cd $WT || exit 2
 git diff -- include src > /tmp/seed_patch.diff
 [ -s /tmp/seed_patch.diff ] || { echo "no change applied in $WT"; exit 2; }
 build_demo() {
-  if [ -f OUT/demo.cpp ]; then g++ -std=c++14 -O1 -w $SEED_FLAGS -DPARMCB_VERIF -DPARMCB_INVARIANTS_CHECK -I$WT/include -I$WT/_build/include OUT/demo.cpp -o OUT/demo.bin -ltbb -lboost_timer -lpthread 2>&1 | tail -3; fi
+  if [ -f OUT/demo.cpp ]; then g++ -std=c++14 -O1 -w ${SEED_FLAGS:-} -DPARMCB_VERIF -DPARMCB_INVARIANTS_CHECK -I$WT/include -I$WT/_build/include OUT/demo.cpp -o OUT/demo.bin -ltbb -lboost_timer -lpthread 2>&1 | tail -3; fi
 }
 run_demo() {
   if [ -f OUT/demo.cpp ]; then (cd OUT && timeout 600 ./demo.bin >/tmp/seed_demo.out 2>&1; echo $?)
